@@ -3,9 +3,6 @@ package main
 import (
 	"encoding/json"
 	"fmt"
-	"os"
-	"os/exec"
-	"path/filepath"
 	"reflect"
 	"strings"
 
@@ -107,33 +104,7 @@ func c20Merge(c *Ctx, op string) string {
 // runChainDriver executes the chain ops through the tagged test driver of cmd/terway-cli in private
 // mount and network namespaces.
 func runChainDriver(ops []string) ([]string, error) {
-	bin := os.Getenv("VERIF_TERWAYCLI_TEST")
-	if bin == "" {
-		return nil, fmt.Errorf("VERIF_TERWAYCLI_TEST not set")
-	}
-	dir, err := os.MkdirTemp(filepath.Dir(bin), "chain")
-	if err != nil {
-		return nil, err
-	}
-	defer os.RemoveAll(dir)
-	in, out := filepath.Join(dir, "in"), filepath.Join(dir, "out")
-	if err := os.WriteFile(in, []byte(strings.Join(ops, "\n")+"\n"), 0o644); err != nil {
-		return nil, err
-	}
-	cmd := exec.Command("unshare", "-n", "-m", "sh", "-c", `mount -t tmpfs tmpfs /run && exec "$0" -test.run '^TestVerifDriver$' -test.count=1`, bin)
-	cmd.Env = append(os.Environ(), "VERIF_IN="+in, "VERIF_OUT="+out)
-	if b, err := cmd.CombinedOutput(); err != nil {
-		return nil, fmt.Errorf("chain driver: %v: %s", err, b)
-	}
-	b, err := os.ReadFile(out)
-	if err != nil {
-		return nil, err
-	}
-	lines := strings.Split(strings.TrimRight(string(b), "\n"), "\n")
-	if len(lines) != len(ops) {
-		return nil, fmt.Errorf("chain driver printed %d lines for %d ops", len(lines), len(ops))
-	}
-	return lines, nil
+	return runTestDriver("VERIF_TERWAYCLI_TEST", ops, true)
 }
 
 func typeOf(p any) string {
